@@ -72,15 +72,15 @@ cocls::async<vs::Counted> producer(cocls::future<void> &inner, int how) {
 
 void deadlock_classifier() {
     if (dsim::cell_get(RESOLVED)) {
-        for (int i = 0; i < 3; i++) if (dsim::cell_get(STARTED + i) && !dsim::cell_get(REL + i)) dsim::fail("C02.lost_wakeup", "future resolved but waiter %d was never released (everything is blocked)", i);
+        for (int i = 0; i < 6; i++) if (dsim::cell_get(STARTED + i) && !dsim::cell_get(REL + i)) dsim::fail("C02.lost_wakeup", "future resolved but waiter %d was never released (everything is blocked)", i);
     }
 }
 }
 
 void dsim_scenario() {
     dsim::on_deadlock(deadlock_classifier);
-    int nw = 1 + dsim::choose(3);
-    int wk[3]; for (int i = 0; i < nw; i++) wk[i] = dsim::choose(6);
+    int nw = 1 + dsim::choose(6);       // more than three ready coroutines make the carried suspend point grow from inline to heap storage
+    int wk[6]; for (int i = 0; i < nw; i++) wk[i] = dsim::choose(6);
     int rk = dsim::choose(6);
     bool colocate = dsim::flip();
     dsim::plan_note("waiters=%d kinds=", nw); for (int i = 0; i < nw; i++) dsim::plan_note("%d", wk[i]);
@@ -89,7 +89,7 @@ void dsim_scenario() {
         Fut f;
         cocls::future<void> gate; auto gate_p = gate.get_promise();
         cocls::future<void> inner; cocls::promise<void> inner_p;
-        CustomAwt customs[3];
+        CustomAwt customs[6];
         {
             cocls::promise<vs::Counted> p = f.get_promise();
             bool via_coro = rk >= 4;
@@ -127,7 +127,7 @@ void dsim_scenario() {
                 // non-blocking waiter kinds share one thread; blocking kinds get their own
                 th.emplace_back([&] {
                     std::vector<cocls::future<void>*> pend; (void)pend;
-                    cocls::future<void> futs[3]; bool used[3] = {false, false, false};
+                    cocls::future<void> futs[6]; bool used[6] = {false, false, false, false, false, false};
                     for (int i = 0; i < nw; i++) {
                         if (wk[i] <= 1) { futs[i] << [&] { return coro_waiter(f, gate, i, wk[i]).start(); }; used[i] = true; }
                         else if (wk[i] >= 4) start_waiter(i);
